@@ -278,7 +278,9 @@ def quantize_real(x,
     if data_std == 0:
         factor = 0
     else:
-        factor = target_std / data_std
+        # In double precision: with the statistics supplied as narrow numpy scalars (what 
+        # np.std of a float16/float32 array returns) the quotient would be formed in that type
+        factor = float(target_std) / float(data_std)
     
     q_voltages = xp.around(factor * (x - data_mean) + target_mean)
     # Range limits as Python integers: with a numpy fixed-width num_bits (e.g. uint8), 
